@@ -131,12 +131,17 @@ func floorSec(t time.Time) int64 {
 }
 
 func (d *storeDriver) probe(st oidc.SessionStore, mr *miniredis.Miniredis, sid string) map[string]any {
-	out := map[string]any{"ex": false, "auth": false, "tok": false, "created": 0, "createdKnown": true, "ttl": -1}
+	out := map[string]any{"known": true, "ex": false, "auth": false, "tok": false, "membersKnown": true, "created": 0, "createdKnown": true, "ttl": -1}
 	if p := oidc.VerifProbeMemory(st, sid); p.Known {
-		out["ex"], out["auth"], out["tok"] = p.Ex, p.Auth, p.Tok
-		if p.Ex {
+		out["ex"], out["auth"], out["tok"], out["membersKnown"], out["createdKnown"] = p.Ex, p.Auth, p.Tok, p.MembersKnown || !p.Ex, p.TimesKnown || !p.Ex
+		if p.Ex && p.TimesKnown {
 			out["created"] = floorSec(p.Added)
 		}
+		return out
+	}
+	if mr == nil {
+		out["known"] = false // an in-memory store whose private structure the probe does not recognise: results alone are judged
+		out["membersKnown"], out["createdKnown"] = false, false
 		return out
 	}
 	if mr != nil {
@@ -198,6 +203,10 @@ func projectRedis(mr *miniredis.Miniredis, db int, sid string, isTok, isState fu
 			case isTok(v):
 				p.tok = true
 			case isState(v):
+				p.auth = true
+			case containsKnown(v, isTok):
+				p.tok = true // (the token inside a structured member, e.g. JSON)
+			case containsKnown(v, isState):
 				p.auth = true
 			default:
 				// the creation time is the earliest time the session holds (a token's expiry lies after the write that stored it)
@@ -396,4 +405,16 @@ func runStoreFile(in, out string) (int, error) {
 		n++
 	}
 	return n, sc.Err()
+}
+
+
+// containsKnown: does a structured member (JSON, a joined string) carry a value the predicate knows? The candidates are
+// the quoted strings and the separator-delimited pieces of v.
+func containsKnown(v string, known func(string) bool) bool {
+	for _, piece := range strings.FieldsFunc(v, func(r rune) bool { return r == '"' || r == ',' || r == ';' || r == '|' || r == ' ' || r == '{' || r == '}' || r == '[' || r == ']' }) {
+		if known(piece) {
+			return true
+		}
+	}
+	return false
 }
